@@ -156,7 +156,11 @@ func runPwObj(w *Worker) {
 				rest = rest[len(p.enc):]
 				continue
 			}
-			w.Violation("Protowire.serialize:encoding="+p.name+":differs-from-reference", fmt.Sprintf("%s = %x: the %s field should be encoded as %x, found %x…", desc2, got, p.name, p.enc, rest[:min(len(rest), len(p.enc))]), "txt", []byte(desc2))
+			kn := p.name
+			if kn == "double" || kn == "float" {
+				kn = "double-or-float"
+			}
+			w.Violation("Protowire.serialize:encoding="+kn+":differs-from-reference", fmt.Sprintf("%s = %x: the %s field should be encoded as %x, found %x…", desc2, got, p.name, p.enc, rest[:min(len(rest), len(p.enc))]), "txt", []byte(desc2))
 			rest = nil
 			break
 		}
